@@ -507,7 +507,7 @@ where
         for (vname, pp_d) in [("compressed+validated", pp2.cv.as_ref()), ("uncompressed+unvalidated", pp2.un.as_ref())] {
             let did = format!("{}/reloaded-params/{}", id, vname);
             if let Some(pp_d) = pp_d {
-                match guarded(|| PCof::<S>::trim(pp_d, inst.sizes.supported, inst.sizes.supported, inst.bounds.as_deref())) {
+                match guarded(|| PCof::<S>::trim(pp_d, inst.sizes.supported, inst.shb, inst.bounds.as_deref())) {
                     Ok(Ok((ck_d, vk_d))) => {
                         let same_bytes = ser_bytes(&ck_d) == ser_bytes(&inst.ck) && ser_bytes(&vk_d) == ser_bytes(&inst.vk);
                         let d_honest = decide(&vk_d, &inst.comms, &ev, &proof);
@@ -515,7 +515,7 @@ where
                         // and the re-loaded committer key must produce proofs the original verifier key accepts
                         let mut psp2 = generic::fresh_sponge();
                         let inst_d = Instance::<S> { sizes: inst.sizes.clone(), pp: inst.pp.clone(), ck: ck_d, vk: inst.vk.clone(),
-                            polys: inst.polys.clone(), kinds: inst.kinds.clone(), comms: inst.comms.clone(), states: inst.states.clone(), bounds: inst.bounds.clone() };
+                            polys: inst.polys.clone(), kinds: inst.kinds.clone(), comms: inst.comms.clone(), states: inst.states.clone(), bounds: inst.bounds.clone(), shb: inst.shb };
                         let d_reopen = match generic::batch_open::<S>(&inst_d, &qs, &mut psp2, &mut rng.clone()) {
                             Ok(p2) => Some(decide(&inst.vk, &inst.comms, &ev, &p2)),
                             Err(_) => None,
